@@ -18,6 +18,7 @@ CHECKS = {
         thorough=dict(stages=[st(15000, shards=16, timeout=1500)]),
     ),
     "C01": dict(
+        require={'write-through-depth>=2-stepped': 0.05, 'bulk-write-noncontiguous-target': 0.1, 'c-backed': 0.2, '__nontrivial__': 0.2},
         pkg="c01", level="exploration",
         rule="rapid-generated histories (1-40 operations: slice, rank-reducing slice, Get/Get1-3, Set/Set1-3, Apply, Apply1, ApplySlice, CopyFrom) over one root of a drawn element type (8) and back-end (Go slice / C memory with canaries), "
              "executed against an extensional reference model (a view = explicit list of storage offsets); after every operation the raw storage, every live view element-by-element and the caller's loc vectors are compared. "
@@ -27,6 +28,7 @@ CHECKS = {
         thorough=dict(stages=[st(40000, shards=16, timeout=2400)]),
     ),
     "C02": dict(
+        require={'V:non-contiguous': 0.03, 'mixed-contiguity': 0.02, '__nontrivial__': 0.2},
         pkg="c02", level="exploration",
         rule="rapid-generated views (classes forced: whole, leading rows, row-gapped, column, stepped, single element, extent-1 dims, slice chains to depth 3, reshaped) of all 8 element types and both back-ends; for each view: Unroll, Contiguous, Maximum/Minimum, "
              "ReshapeFast, Reshape/MustReshape to right and wrong sizes, aliasing of reshape/unroll results, and one binary operation (CopyFrom, ApplySlice, Scale, AddTo, ApplyFunc1) against a second view of either contiguity, all compared with the row-major element-wise definition on the extensional model; "
@@ -36,6 +38,7 @@ CHECKS = {
         thorough=dict(stages=[st(60000, shards=16, timeout=2400)]),
     ),
     "C03": dict(
+        require={'initStates-copy-back': 0.01, '__nontrivial__': 0.2},
         pkg="c03", level="exploration",
         pre=[dict(kind="harness_main", repo_dir="libopenwater", pkg="libow", out="libopenwater.so", env="VERIF_LIBOW_SO", flags=["-buildmode=c-shared"]),
              dict(out="abi-driver", env="VERIF_ABI_DRIVER", cmd=["gcc", "-O1", "-w", "-o", "{out}", "{verif}/cdriver/driver.c", "-ldl"], cwd="{verif}")],
@@ -51,6 +54,7 @@ CHECKS = {
                               st(5000, shards=3, pkg="libow", overlay=dict(map_main={"libopenwater": "libow"}), run="TestEntryPointThroughCABI", timeout=2400)]),
     ),
     "C04": dict(
+        require={'P<N': 0.05, 'B<N': 0.05, 'table-lengths-differ': 0.01, '__nontrivial__': 0.2},
         pkg="c04", level="exploration",
         rule="rapid-generated (model from the whole catalogue, N=1..8 cells, P parameter sets and B input blocks each in {N, 1, divisor of N, coprime with N, N-1}, T=1..40, per-cell table lengths, states from the model's own initialisation / a previous run, outputs exact-size or with extra cells/timesteps, state rows with extra columns, Go- or C-backed arrays); "
              "oracle: every cell run alone on a fresh model object (parameter column i mod P, input block i mod B, its own state row): outputs and final states bit-identical, inputs/parameters bit-unchanged, sentinel outside the run region intact; InitialiseStates(N) row i = the cell initialised alone. "
@@ -60,6 +64,7 @@ CHECKS = {
         thorough=dict(stages=[st(12000, shards=16, timeout=3000)]),
     ),
     "C06": dict(
+        require={'multiple-splits': 0.1, '__nontrivial__': 0.2},
         pkg="c06", level="exploration",
         rule="rapid-generated (stateful model, parameters in domain, series of 2..80 steps, initial states from the model or a previous run, 1-4 split points incl. 1-step segments); oracle: outputs and final states of the segmented run (states carried) equal the uninterrupted run "
              "(numerically equal up to 1e-9 relative round-off; StorageRouting within 50x its solver mass-balance tolerance). Non-trivial = >=1 split and the state changed before it; distinct = distinct case",
@@ -68,6 +73,7 @@ CHECKS = {
         thorough=dict(stages=[st(6000, shards=16, timeout=3000)]),
     ),
     "C14": dict(
+        require={'causality-interior-cut-stateful': 0.05, 'history>=3-runs-2-models': 0.1},
         pkg="c14", level="exploration",
         rule="rapid-generated (any catalogued model, parameters/inputs/states in domain; a history of 0-4 other runs on the same object with other parameters or on other models; a cut t and a replacement or truncation of the inputs after t); oracle (metamorphic): bit-identical outputs and final states on repeat / fresh object / after the history; outputs[0..t] bit-identical under any change after t; inputs and parameters unchanged. "
              "Non-trivial = history involving >= 2 model types, or an interior cut on a stateful model; distinct = distinct case",
@@ -76,6 +82,7 @@ CHECKS = {
         thorough=dict(stages=[st(5000, shards=16, timeout=3000)]),
     ),
     "C10": dict(
+        require={'storm': 0.2, '__nontrivial__': 0.1},
         pkg="c10", level="exploration",
         rule="rapid-generated (GR4J / Sacramento / Simhyd / Surm / RunoffCoefficient, parameters in the documented or physical ranges, rainfall/PET series mixing dry spells, exponential bulk and storms, length 1..80 (thorough to 3000), initial states zero or from a previous run, GR4J classes x2<=0 and x2=0 with PET=0); "
              "oracle (invariants over the whole output history): outputs finite and >= 0, stores within [0, capacity] at the end and at drawn cut points, runoff = quick/surface + baseflow, cumulative runoff (+ actual ET) <= cumulative rainfall + initial storage, GR4J balance closes for x2=0, PET=0. "
@@ -86,6 +93,7 @@ CHECKS = {
         thorough=dict(stages=[st(3000, shards=16, timeout=3000)]),
     ),
     "C15": dict(
+        require={'__nontrivial__': 0.1},
         pkg="c15", level="exploration",
         rule="rapid-generated ((x1,x2,x3,x4) over the documented ranges with x4 forced through every unit-hydrograph length class and values at/just below/just above integers and half-integers, non-negative rain/PET series, initial stores zero or carried from a warm-up of the reference); "
              "oracle: an independent implementation of Perrin et al. (2003) (simref/gr4jref.go) compared on runoff at every step and on (S, R, UH stores) at the end, 1e-9 relative + 1e-10*(1+magnitude). Non-trivial = x4 >= 2 or x4 < 1 and a storm; distinct = distinct case",
@@ -94,6 +102,7 @@ CHECKS = {
         thorough=dict(stages=[st(30000, shards=16, timeout=3000)]),
     ),
     "C11": dict(
+        require={'path:solved': 0.05, 'path:zero-outflow': 0.03, 'lateral>0': 0.03, 'lag>length': 0.03},
         pkg="c11", level="exploration",
         rule="rapid-generated StorageRouting cases (k log-uniform 1..1e6, m in [0.3,1] and exactly 1, dead storage 0 or >0, bias 0 or 0<bias with 2*k*bias<=dt, area 0 or >0 with rain/evaporation, initial storage 0 or >0, series 1..60 with zero-flow spells), Muskingum cases inside 2KX<=dt<=2K(1-X) (steady flows with equilibrium initial state; finite events from rest with a zero tail), Lag cases (lag 0..12, series shorter and longer than the lag, carried buffer, series fed in 1-3 calls); "
              "oracles: per-step water balance S_t - S_{t-1} = (I+L-Q-E)*dt with E as the model defines it (1e-9 relative + the solver's 1e-3 m^3), Q,S >= 0, S = k*Q^m + dead within 2x the solver tolerance (horizontal or vertical distance to the curve), steady flow unchanged, event volume = inflow + lateral volume (geometric remainder of the recession added), outflow = buffer ++ inflow delayed by lag, final buffer = last lag inflows. "
@@ -103,6 +112,7 @@ CHECKS = {
         thorough=dict(stages=[st(40000, shards=16, timeout=3000)]),
     ),
     "C12": dict(
+        require={'InstreamFineSediment:deposition': 0.005, 'InstreamFineSediment:remobilisation': 0.005, 'LumpedConstituentRouting:flush': 0.02, '__nontrivial__': 0.2},
         pkg="c12", level="exploration",
         rule="rapid-generated cases for the eight constituent models (parameters in range; load/flow/volume series with zero-flow and near-empty steps forced: volume and outflow zero or below/above the 0.01 m^3 threshold together; initial stored masses 0 or >0, fine sediment also negative = fraction of capacity; both branches of each model), stepped one timestep at a time with carried states so that the stored mass after every step is visible; "
              "oracle: per-step and whole-run budget stored_before + in*dt = out*dt + deposited/trapped/decayed/floodplain + stored_after within 1e-9 relative, the documented flush (working volume < 0.01 m^3: nothing leaves, stored mass dropped) as the only permitted loss, loads and in-stream stores >= 0 for non-negative inputs, remobilisation <= channel store, channel store = previous + reported net deposition. "
@@ -113,6 +123,7 @@ CHECKS = {
         thorough=dict(stages=[st(6000, shards=16, timeout=3000)]),
     ),
     "C13": dict(
+        require={'spill': 0.03, 'below-10%': 0.1, 'rain/evaporation-on-water': 0.2},
         pkg="c13", level="exploration",
         rule="rapid-generated Storage cases (monotone level-volume-area tables and min/max release curves with minRelease <= maxRelease, 2..6 points, zero release/area at zero volume; DeltaT 3600..86400; inflow/demand/rainfall/PET series in filling, drawing-down, alternating and balanced modes; initial volume 0, from a previous run, or drawn up to 1.3x full supply); "
              "oracle: per-step dV = (inflow - outflow)*dt + (rainfallVolume - evaporationVolume)*dt within 1e-9 relative, V >= 0, final level/area = own interpolation of the tables, clamp(demand, minRel, maxRel) at the lower/upper volume traversed bounds the outflow (with the integrator's own acceptance slack), more only as spill when the volume reached the top of the table. "
@@ -123,6 +134,7 @@ CHECKS = {
         thorough=dict(stages=[st(8000, shards=16, timeout=3000)]),
     ),
     "C16": dict(
+        require={'linearity-checked': 0.02, '__nontrivial__': 0.1},
         pkg="c16", level="exploration",
         rule="rapid-generated cases for 20 partition / conversion / generation models (inputs including zero and, for the arithmetic models, negative values; fractions and scale factors also outside [0,1]; rating-table inputs at the end points, at knots and inside); "
              "oracle: closed-form reference per model (partition, scale, delivery ratio, depth-to-rate mm*1e-3*area/dt, gate, sum, pass-through, proportion, demand split), identities (outputs sum to input; total = quick + slow; fine share = fine fraction; delivered = generated x ratio/100; zero driver -> zero load; loads >= 0), closed forms for bank erosion and gully generation, and linearity in flow (metamorphic x c) for the concentration-based generators; 1e-12 relative. "
@@ -132,6 +144,7 @@ CHECKS = {
         thorough=dict(stages=[st(15000, shards=16, timeout=3000)]),
     ),
     "C18": dict(
+        require={'budget-suffices': 0.03, 'query:between-knots': 0.05},
         pkg="c18", level="exploration",
         rule="FindRoot: rapid-generated continuous functions (monotone piecewise-linear with flat pieces and kinks, power and exponential families, non-monotone waves with f(min)<0<f(max)), any initial guess, tolerance 1e-12..1, iteration limit 0..60, derivative none/exact/wrong/zero, convergence limit arbitrary or small enough not to pre-empt halving; every evaluation point recorded: inside [min,max] and not NaN, returned x inside, returned value == f(x), monotone: |value| <= better end, and < tolerance whenever the limit >= ceil(log2(L*(max-min)/tol))+1 (tolerance resolvable in floating point). "
              "Piecewise: strictly increasing tables of 2..12 knots (also as stepped views), queries at knots, between, just outside, far outside, NaN, +-Inf: error exactly outside/NaN, knots within 4 ulp, interpolant within 1e-12 and between the neighbouring values. Non-trivial = root search of >= 3 iterations or non-monotone function / query strictly between knots; distinct = distinct case",
@@ -140,6 +153,7 @@ CHECKS = {
         thorough=dict(stages=[st(100000, shards=16, timeout=3000)]),
     ),
     "C20": dict(
+        require={'pair-straddles-freezing': 0.05, 'humidity-extreme': 0.2},
         pkg="c20", level="exploration",
         rule="rapid-generated (elevation 0..10000 m, 1-20 pairs of points per case: temperature pairs T1<T2 at equal humidity incl. adjacent floats, 1e-9..1e-3 apart and straddling 0 C; humidity pairs at equal temperature; temperatures dense around 0 and integers, humidities dense near 0 and 100); "
              "oracle: outputs finite, vapour pressure > 0 and strictly increasing for T2-T1 >= 1e-6 (non-decreasing for closer pairs), dew point <= wet bulb <= dry bulb, deltaT == dry - wet, dew point non-decreasing in humidity. Non-trivial = a pair straddling freezing or humidity >= 99 or <= 1; distinct = distinct case",
@@ -148,6 +162,7 @@ CHECKS = {
         thorough=dict(stages=[st(40000, shards=16, timeout=3000)]),
     ),
     "C17": dict(
+        require={'missing-parameter-and-input': 0.005, 'nested-encoding': 0.05},
         pkg="c17", level="exploration",
         pre=[dict(kind="harness_main", repo_dir="cmd/ow-single", pkg="owsingle", out="ow-single", env="VERIF_OWSINGLE")],
         rule="(a) rapid-generated structured requests (any non-dimensioned catalogued model, any subset/superset/order of parameters and inputs, equal series lengths, values in domain): in-process with all parameters present and both encodings (split / nested), and through the real ow-single binary (child process, stdin/stdout) with subsets so that defaults are used; oracle: decoded outputs/states bit-equal (after the NaN/+Inf/-Inf string mapping) to a direct one-cell run with defaults / zeros, every missing parameter and input named by a log entry and nothing present reported missing. "
@@ -168,6 +183,7 @@ CHECKS = {
         thorough=dict(stages=[st(40, shards=5, timeout=3000)]),
     ),
     "C08": dict(
+        require={'load:step>1': 0.03, 'non-contiguous-source-view': 0.05, 'writeSlice': 0.03, '__nontrivial__': 0.2},
         pkg="c08", level="exploration",
         overlay=dict(inject={"io/zz_verif_export.go": "harness/overlays/io_export.go"}),
         rule="rapid-generated histories of 1-25 operations over two files in the HDF5 stand-in: Create (new / same shape / different shape / with compression), Write of a generated source view (all 8 element types, Go- and C-backed, any layout), WriteSlice of a generated sub-array at a location, Load with Slice nil or per-dimension nil | [start, stop, step] (stop possibly beyond the extent, step 1..4), Exists / Shape / GetDatasets / GetGroups; "
@@ -181,6 +197,7 @@ CHECKS = {
         thorough=dict(stages=[st(20000, shards=12, run="TestRoundTripHistories|TestSelectionHelpersExhaustive|TestStandInSelfCheck", timeout=3000), st(1500, shards=4, race=True, run="TestConcurrentCallers", timeout=3000)]),
     ),
     "C07": dict(
+        require={'several-links-into-one-input': 0.03, 'empty-batch': 0.1, '__nontrivial__': 0.15},
         pkg="owsim", level="exploration",
         overlay=dict(map_main={"cmd/ow-sim": "owsim"}),
         rule="rapid-generated layered model graphs over the HDF5 stand-in: 1-4 model types from a pool of 20 models whose kernels accept any non-negative input, 1-5 generations, 0-4 nodes per (model, generation) including empty batches and models absent from generation 0, links only forward in generation order (several links into one input, fan-out), models with and without a stored inputs dataset, T=1..20, flags -overwrite (with a stale output file), -outputs-for/-no-outputs-for/-inputs-for/-no-inputs-for subsets, separate parameter / initial-state / time-series / final-state files, no output file, and delays injected at the stand-in's read / write calls; the real run_simulation is called in-process (sources mapped by -overlay); "
@@ -191,6 +208,7 @@ CHECKS = {
         thorough=dict(stages=[st(400, shards=16, run="TestSimulationEqualsSequentialReference", timeout=3000, env={"VERIF_PROPERTY": "C07"})]),
     ),
     "C05": dict(
+        require={'__nontrivial__': 0.3},
         pkg="c05", level="exploration",
         rule="built with the Go race detector (halt on first report): (1) rapid-generated vectorised-Run cases as in C04 with 2..24 cells (thorough 48) over the whole catalogue, GOMAXPROCS drawn from {1,2,3,4,8,16}, each case run 3 times and every repetition compared bit-for-bit with the sequential cell-by-cell reference; "
              "(2) rapid-generated ow-sim graphs as in C07, 2-3 repetitions each, GOMAXPROCS drawn, delays injected separately at writer-side (mutating) and main-loop (read) calls of the HDF5 stand-in, every repetition compared with the sequential graph interpreter. "
